@@ -2,6 +2,7 @@ INIT InitPair
 NEXT NextPair
 CONSTANTS Block = 2  HeaderCells = 16  Zero = 0  Emit = TRUE
 CONSTANT Conts <- Conts3
+CONSTANT Paths <- Paths4
 CONSTANT EmptyHead <- MCEmptyHead
 INVARIANT EmitPair
 CHECK_DEADLOCK FALSE
